@@ -139,3 +139,10 @@ PROPS["C13"] = {
                     "size equality after a retype is taken from the observations themselves"],
     "budget": {"quick": 30, "thorough": 600},
 }
+
+PROPS["C20"] = a("C01's generator restricted to what core.h can express (no signatures, no single-use, no rule redefinition), each history "
+                 "executed once through the C++ interface and once through llb_buildengine_* / llb_task_* with the same rule/task logic "
+                 "objects behind C callbacks, canonical completion mode; compared build by build (result, executed set, provided values, "
+                 "callback sequence) and by the final database dump; force_change, must-follow, discovered dependencies, NUL bytes in keys and "
+                 "values and attach_db schema versions are all generated. Non-trivial: an incremental build that both skipped and executed rules.")
+PROPS["C20"]["components"] = dict(WORLD_A_COMPONENTS, real=WORLD_A_COMPONENTS["real"] + ["products/libllbuild/Core-C-API.cpp", "products/libllbuild/C-API.cpp"])
